@@ -281,6 +281,18 @@ def flaky_fn(_xv=None, **kw):
             bad = json.load(f)
     except FileNotFoundError:
         bad = []
+    exc = "flaky"
+    if isinstance(bad, dict):
+        bad, exc = bad["vals"], bad.get("exc", "flaky")
     if plain(kw.get("a")) in bad:
-        raise FlakyError(f"told to fail at a={kw.get('a')}")
+        msg = f"told to fail at a={kw.get('a')}"
+        if exc == "stop":
+            raise StopIteration(msg)
+        if exc == "key":
+            raise KeyError(msg)
+        if exc == "value":
+            raise ValueError(msg)
+        if exc == "eof":
+            raise EOFError(msg)
+        raise FlakyError(msg)
     return result_of(kind, kw)
